@@ -83,11 +83,12 @@ def specs_for(n, aliases=False, thin=False):
     out += [{"kind": "diff", "backward": b} for b in (True, False)]
     out += [{"kind": "poly", "scores": None}] + [{"kind": "poly", "scores": k} for k in (SCORE_KINDS if not thin else ["squares"])]
     if aliases:  # patsy-compatible spellings preloaded into every formula + the bare/default forms
-        out += [{"kind": "treatment", "base": None, "alias": "Treatment"}]
         out += [{"kind": "treatment", "base": n - 1, "alias": "Treatment"}] if n else []
-        out += [{"kind": k, "alias": a} for k, a in (("sum", "Sum"), ("helmert", "Helmert"), ("diff", "Diff"), ("poly", "Poly"))]
-        out += [{"kind": "treatment", "base": None, "alias": "none"}, {"kind": "treatment", "base": None, "alias": "class"},
-                {"kind": "sum", "alias": "class"}]
+        out += [{"kind": "sum", "alias": "Sum"}, {"kind": "poly", "alias": "Poly"}, {"kind": "treatment", "base": None, "alias": "none"}]
+        if aliases == "all":
+            out += [{"kind": "treatment", "base": None, "alias": "Treatment"}]
+            out += [{"kind": k, "alias": a} for k, a in (("helmert", "Helmert"), ("diff", "Diff"))]
+            out += [{"kind": "treatment", "base": None, "alias": "class"}, {"kind": "sum", "alias": "class"}]
     return out
 
 
@@ -506,7 +507,7 @@ def drv_encode(c, ctx, col):
 
 def drv_formula(c, ctx, col):
     from formulaic import model_matrix
-    lkind, explicit, universe, vec, levels, spec = choose_data(c, ctx, aliases=True)
+    lkind, explicit, universe, vec, levels, spec = choose_data(c, ctx, aliases=ctx["aliases"])
     m = len(levels)
     ctxt = render(spec, levels)
     if ctxt is None:
@@ -588,20 +589,20 @@ def subchecks(tier, seed):
     R.selftest(13)
     quick = tier == "quick"
     nmax = 8 if quick else 12
-    enc_L = [3, 3, 2, 2] if quick else [4, 4, 4, 4]       # max data length per number of declared levels (1..4)
+    enc_L = [3, 2, 2, 2] if quick else [4, 4, 4, 4]       # max data length per number of declared levels (1..4)
     enc_thin = 99 if quick else 4                          # data length from which the thinned option list is used
-    frm_L = [2, 2, 2] if quick else [4, 3, 3, 3]
-    frm_out = ["pandas", "sparse"] if quick else ["pandas", "sparse", "numpy"]
+    frm_L = [2, 2, 2] if quick else [3, 3, 3, 3]
+    frm_out = ["pandas", "sparse"]
     alpha = "declared levels + null (+ a value outside the list when levels= is explicit)"
     subs = [
         Sub("matrices", drv_matrices, {"nmax": nmax}, shard_depth=3,
             bounds={"levels": "1..%d" % nmax, "label_types": ["str", "int", "mixed"], "entry": ["Contrasts", "ContrastsState"],
                     "poly_scores": [None] + SCORE_KINDS}),
-        Sub("encode", drv_encode, {"L_by_n": enc_L, "thin_from": enc_thin, "all_followups": not quick}, shard_depth=6,
+        Sub("encode", drv_encode, {"L_by_n": enc_L, "thin_from": enc_thin}, shard_depth=6,
             bounds={"declared_levels": "1..4", "max_data_length_by_declared_levels": enc_L, "alphabet": alpha,
                     "outputs": ["pandas", "numpy", "sparse"], "reduced_rank": [True, False],
                     "contrast_options": "all" if quick else "all for data length <= 3; every base + one representative per option at length 4"}),
-        Sub("formula", drv_formula, {"L_by_n": frm_L, "thin_from": 1, "outputs": frm_out, "all_followups": not quick}, shard_depth=6,
+        Sub("formula", drv_formula, {"L_by_n": frm_L, "thin_from": 1, "outputs": frm_out, "aliases": True if quick else "all"}, shard_depth=6,
             bounds={"declared_levels": "1..%d" % len(frm_L), "max_data_length_by_declared_levels": frm_L, "alphabet": alpha,
                     "outputs": frm_out, "na_action": ["drop", "ignore"], "intercept": ["C(...)", "C(...) - 1"],
                     "contrast_options": "every base of treatment, one representative of the other options, patsy aliases, bare column"}),
